@@ -39,8 +39,8 @@ CONFIGS = {
     },
     "witness": {
         "cmds": [("@WITNESS@", ["check", "--workspace", "--lib"])],
-        "crates": "witness_enums,witness_wiring",
-        "expect": ["witness_enums-lib", "witness_wiring-lib"],
+        "crates": "witness_enums,witness_wiring,witness_echo",
+        "expect": ["witness_enums-lib", "witness_wiring-lib", "witness_echo-lib"],
         "extra_hash": os.path.join(VERIF, "witness"),
     },
 }
